@@ -479,7 +479,7 @@ func moqSeeds() []*Seed {
 		Objects: []subgroup.Object{{Payload: []byte{0, 0, 0, 1, 0x65, 0x88, 0x84}}}}).Marshal()
 
 	var out []*Seed
-	for vi, alpn := range []string{"moqt-19", "moqt-16"} {
+	for vi, alpn := range []string{"moqt-19", "moqt-16", "moqt-18", "moqt-17"} {
 		setup := func(path string) Msg {
 			if alpn == "moqt-16" {
 				return moqCtl("CLIENT_SETUP", controlmessage.ClientSetup(controlmessage.Setup{Path: path, Authority: "127.0.0.1"}).Marshal(), 1, path, "127.0.0.1")
@@ -497,16 +497,21 @@ func moqSeeds() []*Seed {
 			&Seed{Listener: "moq-quic", Name: alpn + "-subscribe", Transport: tMoQ, Port: pMoQQUIC, ALPN: alpn, Thorough: true,
 				Msgs: []Msg{setup("/cam?user=a"), sub, subTrack}},
 			&Seed{Listener: "moq-quic", Name: alpn + "-publish", Transport: tMoQ, Port: pMoQQUIC, ALPN: alpn, Thorough: true,
-				Msgs: []Msg{cov(setup("/cam?user=a")), catMsg, pub, pubTrack, {Name: "data-subgroup", Data: dataSG, Stream: 0}}},
+				Msgs: []Msg{cov(setup("/cam?user=a")), func() Msg {
+					if vi >= 2 {
+						return cov(catMsg)
+					}
+					return catMsg
+				}(), pub, pubTrack, {Name: "data-subgroup", Data: dataSG, Stream: 0}}},
 		)
 		if vi == 0 {
 			// WebTransport: the path comes from the CONNECT request, SETUP carries no options
 			wsetup := moqCtl("SETUP", controlmessage.Setup{}.Marshal(), 0)
 			out = append(out,
 				&Seed{Listener: "moq-webtransport", Name: alpn + "-subscribe", Transport: tMoQW, Port: pMoQHTTP, ALPN: alpn, URL: "/cam?user=a", Thorough: true,
-					Msgs: []Msg{wsetup, cov(sub), cov(subTrack)}},
+					Msgs: []Msg{wsetup, sub, cov(subTrack)}},
 				&Seed{Listener: "moq-webtransport", Name: alpn + "-publish", Transport: tMoQW, Port: pMoQHTTP, ALPN: alpn, URL: "/cam/moq", Thorough: true,
-					Msgs: []Msg{cov(wsetup), cov(catMsg), cov(pub), cov(pubTrack)}},
+					Msgs: []Msg{cov(wsetup), catMsg, pub, cov(pubTrack)}},
 				&Seed{Listener: "moq-webtransport", Name: alpn + "-setup-with-path", Transport: tMoQW, Port: pMoQHTTP, ALPN: alpn, URL: "/cam", Thorough: true,
 					Msgs: []Msg{cov(setup("/cam?user=a")), cov(sub)}},
 			)
